@@ -208,18 +208,25 @@ func tokText(t, v string) string {
 func tokVal(kind string, i int) string {
 	switch kind {
 	case "word":
-		if i%3 == 1 {
+		switch i % 4 {
+		case 1:
 			return fmt.Sprintf("w*%d", i) // typed w\*1: an escaped wildcard
+		case 2:
+			return fmt.Sprintf("w%d:", i) // typed w2\: : ends in an escaped colon
+		case 3:
+			return fmt.Sprintf("w(%d", i) // typed w\(3: an escaped parenthesis
 		}
 		return fmt.Sprintf("w%d", i)
 	case "quoted":
-		switch i % 4 {
+		switch i % 5 {
 		case 1:
 			return fmt.Sprintf("q*%d", i)
 		case 2:
 			return fmt.Sprintf("q %d", i)
 		case 3:
 			return fmt.Sprintf("/q%d/", i)
+		case 4:
+			return fmt.Sprintf("it's %d", i) // the other quote character inside
 		}
 		return fmt.Sprintf("%d", i)
 	case "wild":
